@@ -258,7 +258,7 @@ func checkC03(c *Ctx) {
 }
 
 // reduced grammars only (every nonterminal productive): the property's precondition
-var c06Grammars = map[string]bool{"G01": true, "G02": true, "G03": true, "G04": true, "G08": true, "G09": true}
+var c06Grammars = map[string]bool{"G01": true, "G02": true, "G03": true, "G04": true, "G08": true, "G09": true, "G21": true, "G22": true}
 
 func checkC06(c *Ctx) {
 	maxN := 3
